@@ -13,6 +13,7 @@ import (
 // whether the DSC comments of the scanner were handed over.
 type executeCell struct {
 	in      string // nil | exit | stop | other
+	empty   bool   // the scanner of this run collected no DSC comments
 	ret     string // nil | invalidexit | other | <something else>
 	dsc     bool   // DSC comments appended to Interpreter.DSC
 	dscFrom bool   // … taken from the scanner of this run
@@ -24,8 +25,17 @@ func (c *Ctx) executeTable() []executeCell {
 	fn := c.method("postscript", "Interpreter", "Execute")
 	errExit, errStop := c.signalGlobal("exit"), c.signalGlobal("stop")
 	var out []executeCell
+	type cellKey struct {
+		in    string
+		empty bool
+	}
+	var keys []cellKey
 	for _, in := range []string{"nil", "exit", "stop", "other"} {
-		cell := executeCell{in: in}
+		keys = append(keys, cellKey{in, false}, cellKey{in, true})
+	}
+	for _, key := range keys {
+		in, empty := key.in, key.empty
+		cell := executeCell{in: in, empty: empty}
 		ev := &ssaEval{c: c, bind: map[ssa.Value]sv{}, mem: map[string]sv{}}
 		ev.load = func(ld *ssa.UnOp, addr sv) (sv, bool) {
 			switch addr.s {
@@ -40,6 +50,39 @@ func (c *Ctx) executeTable() []executeCell {
 			return symV("v:" + addr.s), true
 		}
 		ev.oracle = func(op token.Token, x, y sv) (bool, bool) {
+			// the number of DSC comments the scanner collected, against a constant: 0 in the cells
+			// "no comments"; otherwise any positive number, so the comparison is decided only if it
+			// comes out the same for 1 and for a large number
+			if x.k == svSym && x.s == "len:scannerDSC" && y.k == svInt || y.k == svSym && y.s == "len:scannerDSC" && x.k == svInt {
+				cmpInt := func(a, b int64) bool {
+					switch op {
+					case token.EQL:
+						return a == b
+					case token.NEQ:
+						return a != b
+					case token.LSS:
+						return a < b
+					case token.LEQ:
+						return a <= b
+					case token.GTR:
+						return a > b
+					}
+					return a >= b
+				}
+				with := func(n int64) bool {
+					if x.k == svInt {
+						return cmpInt(x.i, n)
+					}
+					return cmpInt(n, y.i)
+				}
+				if empty {
+					return with(0), true
+				}
+				if with(1) == with(1<<40) {
+					return with(1), true
+				}
+				return false, false
+			}
 			if x.k != svSym && x.k != svNil || y.k != svSym && y.k != svNil {
 				return false, false
 			}
@@ -74,6 +117,8 @@ func (c *Ctx) executeTable() []executeCell {
 				if len(cc.Args) > 1 {
 					return symV("error:" + c.errNameOfArg(cc.Args[1])), true
 				}
+			case callName(call) == "builtin len" && len(args) == 1 && args[0].k == svSym && strings.HasPrefix(args[0].s, "DSC(scanner"):
+				return symV("len:scannerDSC"), true
 			case callName(call) == "builtin append":
 				ev.effects = append(ev.effects, ssaEffect{ins: call, what: "append", args: args})
 				return symV("appended"), true
@@ -115,6 +160,10 @@ func (c *Ctx) errNameOfArg(v ssa.Value) string {
 	if g := globalLoad(v); g != nil {
 		return c.globalInit(g)
 	}
+	// the names may be constants instead of package-level variables
+	if n := c.nameConst(v); n != "" {
+		return n
+	}
 	return c.valShape(v)
 }
 
@@ -122,34 +171,52 @@ func (c *Ctx) executeRules(signals, dsc, flow bool) {
 	fn := c.method("postscript", "Interpreter", "Execute")
 	fname := c.fname(fn)
 	tab := c.executeTable()
-	get := func(in string) executeCell {
+	// every cell of one kind of result (with and without collected DSC comments)
+	all := func(in string, pred func(executeCell) bool) (bool, executeCell) {
+		var last executeCell
+		n := 0
 		for _, t := range tab {
-			if t.in == in {
-				return t
+			if t.in != in {
+				continue
+			}
+			n++
+			last = t
+			if !pred(t) {
+				return false, t
 			}
 		}
-		return executeCell{}
+		return n > 0, last
 	}
 	if signals {
-		e := get("exit")
-		c.check(e.ret == "invalidexit", "CTL-SIGNALS", fname, "stray exit → invalidexit", fn.Pos(), "Execute maps the exit signal to an invalidexit error", fmt.Sprintf("Execute does not turn an `exit` outside any loop into an invalidexit error (it returns %s %s)", e.ret, e.why))
-		s := get("stop")
-		c.check(s.ret == "nil", "CTL-SIGNALS", fname, "stop → normal completion", fn.Pos(), "Execute maps the stop signal to nil", fmt.Sprintf("Execute does not turn `stop` into normal completion (it returns %s %s)", s.ret, s.why))
+		ok, e := all("exit", func(t executeCell) bool { return t.ret == "invalidexit" })
+		c.check(ok, "CTL-SIGNALS", fname, "stray exit → invalidexit", fn.Pos(), "Execute maps the exit signal to an invalidexit error", fmt.Sprintf("Execute does not turn an `exit` outside any loop into an invalidexit error (it returns %s %s)", e.ret, e.why))
+		ok, s := all("stop", func(t executeCell) bool { return t.ret == "nil" })
+		c.check(ok, "CTL-SIGNALS", fname, "stop → normal completion", fn.Pos(), "Execute maps the stop signal to nil", fmt.Sprintf("Execute does not turn `stop` into normal completion (it returns %s %s)", s.ret, s.why))
 	}
 	if dsc {
 		bad := ""
 		for _, t := range tab {
 			want := t.ret == "nil"
-			if t.dsc != want || (t.dsc && !t.dscFrom) {
-				bad = fmt.Sprintf("when the run ends with %s (Execute returns %s) the DSC comments are handed over: %v (from this run's scanner: %v)", t.in, t.ret, t.dsc, t.dscFrom)
+			// appending nothing leaves Interpreter.DSC as it is: with no comments collected the hand-over
+			// may be skipped, but it must not happen after a failed run, nor from anywhere else
+			wrong := t.dsc != want
+			if t.empty && want && !t.dsc {
+				wrong = false
+			}
+			if t.ret == "" {
+				bad = fmt.Sprintf("Execute could not be evaluated for a run that ends with %s: %s", t.in, t.why)
+				continue
+			}
+			if wrong || (t.dsc && !t.dscFrom) {
+				bad = fmt.Sprintf("when the run ends with %s (Execute returns %s; comments collected: %v) the DSC comments are handed over: %v (from this run's scanner: %v)", t.in, t.ret, !t.empty, t.dsc, t.dscFrom)
 			}
 		}
-		c.check(bad == "", "LEX-DSC", fname, "DSC comments are handed to the interpreter only after an error-free run, in order", fn.Pos(), "decision table over the four kinds of result", "DSC comments are appended to Interpreter.DSC on a path where the run failed (or not at all): "+bad)
+		c.check(bad == "", "LEX-DSC", fname, "DSC comments are handed to the interpreter only after an error-free run, in order", fn.Pos(), "decision table over the four kinds of result, with and without collected comments", "DSC comments are appended to Interpreter.DSC on a path where the run failed (or not at all): "+bad)
 	}
 	if flow {
-		o := get("other")
-		n := get("nil")
-		c.check(o.ret == "other" && n.ret == "nil", "IO-FLOW", fname, "error of (*postscript.Interpreter).executeScanner", fn.Pos(), "an error of the run is returned as it is, nil stays nil", fmt.Sprintf("Execute does not pass the error of the run on: a failing run returns %s, a clean run %s", o.ret, n.ret))
+		okO, o := all("other", func(t executeCell) bool { return t.ret == "other" })
+		okN, n := all("nil", func(t executeCell) bool { return t.ret == "nil" })
+		c.check(okO && okN, "IO-FLOW", fname, "error of (*postscript.Interpreter).executeScanner", fn.Pos(), "an error of the run is returned as it is, nil stays nil", fmt.Sprintf("Execute does not pass the error of the run on: a failing run returns %s, a clean run %s %s%s", o.ret, n.ret, o.why, n.why))
 	}
 }
 
